@@ -1,3 +1,4 @@
 pub mod c13;
 pub mod c20;
 pub mod certcase;
+pub mod suite;
